@@ -60,13 +60,14 @@ class FitHooks(Hooks):
     """Configuration for interpreting Models.fit: kernels opaque, log_fluxes_mJy and
     get_log_fluxes symbolic, FitInfo.sort optionally opaque, remove_resolved off."""
 
-    def __init__(self, ndim, opaque_kernels=True, stop_at_sort=True, valid=None):
+    def __init__(self, ndim, opaque_kernels=True, stop_at_sort=True, valid=None, inline_source=False):
         self.ndim = ndim
         self.opaque_kernels = opaque_kernels
         self.stop_at_sort = stop_at_sort
         self.kcalls = []
         self.presort = None
         self.valid = valid
+        self.inline_source = inline_source
 
     def decide(self, interp, test, env, mod):
         t = up(test)
@@ -79,7 +80,7 @@ class FitHooks(Hooks):
         if q.endswith(':Models.log_fluxes_mJy'):
             dims = (M, W) if self.ndim == 2 else (M, D, W)
             return symarr('F', dims, unit=num(1))
-        if q.endswith(':Source.get_log_fluxes'):
+        if q.endswith(':Source.get_log_fluxes') and not self.inline_source:
             return (symarr('wt', (W,), unit=num(1)), symarr('L', (W,), unit=num(1)), symarr('err', (W,), unit=num(1)))
         if q.endswith(':FitInfo.sort') and self.stop_at_sort:
             self.presort = dict(args[0].attrs)
@@ -111,10 +112,10 @@ class FitHooks(Hooks):
         return NotImplemented
 
 
-def interpret_models_fit(repo, ndim, opaque_kernels=True, stop_at_sort=True, valid=None, source_attrs=None):
+def interpret_models_fit(repo, ndim, opaque_kernels=True, stop_at_sort=True, valid=None, source_attrs=None, inline_source=False):
     """Interpret Models.fit on symbolic inputs.  Returns (interp, hooks, info Obj or Unk)."""
     fit = repo.func('models', 'Models.fit')
-    hooks = FitHooks(ndim, opaque_kernels, stop_at_sort, valid)
+    hooks = FitHooks(ndim, opaque_kernels, stop_at_sort, valid, inline_source)
     I = Interp(repo, hooks)
     models = Obj(repo.cls('models', 'Models'), {
         'names': symarr('names', (M,)),
@@ -183,7 +184,9 @@ def Fraction_half():
 
 # ------------------------------------------------------------------ comparison with a reference
 
-BASE_FNS = {'ln', 'abs', 'len', 'LRc', 'OS', 'CHI', 'at', 'argmin', 'argsort', 'arange', 'exp10', 'max', 'min'}
+# functions whose meaning the analyser knows (so a remainder built from them is a definite difference, not an unknown)
+BASE_FNS = {'ln', 'abs', 'len', 'LRc', 'OS', 'CHI', 'at', 'argmin', 'argsort', 'arange', 'exp10', 'max', 'min',
+            'rev', 'argmax', 'sort', 'slice', 'cumsum', 'int', 'floor', 'ceil', 'nanmax', 'nanmin', 'any', 'all', 'power', 'exp'}
 
 
 def compare(ctx, rule, instance, where, code, ref_poly, ref_dims=None, facts=None, vocab=None, fns=None, findings=(), detail_ok=''):
